@@ -34,6 +34,10 @@ pub struct DiffCase {
     pub lower_tick: Option<TickVal>,
     pub upper_tick: Option<TickVal>,
     pub other_ticks: Vec<(u8, TickVal)>,
+    /// 1..=3: every other slot of both / the lower / the upper array is initialized first (arrays with 86..88 initialized ticks, the
+    /// dynamic encoding at its full length)
+    #[serde(default)]
+    pub fill: u8,
     // pool
     #[serde(with = "crate::ser::u128s")]
     pub pool_liquidity: u128,
@@ -101,6 +105,18 @@ pub fn check_case(c: &DiffCase, l: &mut Local) -> Result<(), String> {
     let mut qlo = Quad::new(ts, start_lo);
     let mut qhi = Quad::new(ts, start_hi);
     let mut scratch = Local::default();
+    if c.fill % 4 != 0 {
+        let val = |k: i16| TickVal { net: -(k as i128) * 1_000_003, gross: (k as u128 + 1) << 70, fa: u128::MAX - k as u128, fb: k as u128, r: [k as u64, u64::MAX, u64::MAX - k as u64] };
+        for k in 0..88i16 {
+            if matches!(c.fill % 4, 1 | 2) && k as i32 != ls && (c.two_arrays || k as i32 != us) {
+                qlo.apply(&ArrOp::Set { slot: k, skew: 0, val: val(k) }, &mut scratch)?;
+            }
+            if c.two_arrays && matches!(c.fill % 4, 1 | 3) && k as i32 != us {
+                qhi.apply(&ArrOp::Set { slot: k, skew: 0, val: val(87 - k) }, &mut scratch)?;
+            }
+        }
+        l.count("arrays_filled_before_the_update");
+    }
     for (s, v) in &c.other_ticks {
         let q = if c.two_arrays && s % 2 == 1 { &mut qhi } else { &mut qlo };
         q.apply(&ArrOp::Set { slot: (*s % 88) as i16, skew: 0, val: v.clone() }, &mut scratch)?;
@@ -403,6 +419,7 @@ fn case_strategy() -> BoxedStrategy<DiffCase> {
         prop::option::weighted(0.6, tickval()),
         prop::option::weighted(0.6, tickval()),
         prop::collection::vec((0u8..88, tickval()), 0..4),
+        prop_oneof![29 => Just(0u8), 1 => 1u8..=3],
     );
     let part2 = (
         gen::bits_u128(128),
@@ -423,7 +440,7 @@ fn case_strategy() -> BoxedStrategy<DiffCase> {
             (Just((p1, p2, p3, exact)), prop_oneof![3 => min_no..=max_no, 1 => Just(min_no), 3 => -1i32..=0])
         })
         .prop_map(|((p1, p2, p3, exact), array_no)| {
-            let (tick_spacing, two_arrays, lower_dynamic, upper_dynamic, lower_slot, upper_slot, lower_tick, upper_tick, other_ticks) = p1;
+            let (tick_spacing, two_arrays, lower_dynamic, upper_dynamic, lower_slot, upper_slot, lower_tick, upper_tick, other_ticks, fill) = p1;
             let (pool_liquidity, current_slot, current_skew, fee_growth_a, fee_growth_b, rewards, last_updated, timestamp) = p2;
             let (pos_liquidity, cp_a, cp_b, owed_a, owed_b, pos_rewards, mut liquidity_delta) = p3;
             let (mut lower_slot, mut upper_slot, mut lower_tick, mut upper_tick, mut timestamp) = (lower_slot, upper_slot, lower_tick, upper_tick, timestamp);
@@ -469,6 +486,7 @@ fn case_strategy() -> BoxedStrategy<DiffCase> {
                 lower_tick,
                 upper_tick,
                 other_ticks,
+                fill,
                 pool_liquidity,
                 current_slot,
                 current_skew,
